@@ -378,8 +378,14 @@ def instance_stream(ctx, ws):
         else:
             conn = sqlite3.connect(path)
             if kind == "legacy":
-                for fn, text, _ in listing[:k]:
-                    conn.executescript(text)
+                # what the pre-schema_migrations runner left: scripts 1..k executed in version order
+                for fn, text, ver in sorted(listing, key=lambda x: x[2])[:k]:
+                    try:
+                        conn.executescript(text)
+                    except sqlite3.Error as e:
+                        fails.append(dict(kind="instance", start="legacy %d" % k,
+                                          why="the legacy database cannot be built: script %s raises %r" % (fn, e)))
+                        break
                 conn.execute("PRAGMA user_version=%d" % k)
             conn.commit()
             conn.close()
@@ -555,7 +561,9 @@ def generated_case(ctx, ws, rng, idx, cov):
     ctx.count(2, key)
     # property: from a prefix database / a legacy user_version database the run ends like the run on a
     # fresh database (same raise-or-not, same catalogue; same rows too for a prefix start)
-    if kind == "prefix" or legacy_proper:
+    # (single package only: the theorems are per package, and scripts of two packages that touch the same
+    #  table need not commute, so "a prefix of each package" is not a prefix of the fresh run's sequence)
+    if (kind == "prefix" and npk == 1) or legacy_proper:
         fresh = ws.dbfile()
         ef = real_run(fresh, sources)
         of = observe_path(fresh)
